@@ -57,9 +57,16 @@ var extraBackends = map[string]func() func() db.Db{}
 // lockstep serves the input history on the implementation and on the reference VM and compares
 // every observable the documentation defines, after every request.
 func lockstep(a *app.App, o lsOpts, inputs []string, visit func(k int, rv *ref.VM, got app.Resp, want ref.Resp)) (sig, msg string, reqs int) {
+	return lockstepEnv(a, o, inputs, nil, visit)
+}
+
+// lockstepEnv is lockstep with an answer oracle shared by the implementation's and the reference's
+// environment (external-function answers as choice points).
+func lockstepEnv(a *app.App, o lsOpts, inputs []string, pick func(label string, n int) int, visit func(k int, rv *ref.VM, got app.Resp, want ref.Resp)) (sig, msg string, reqs int) {
 	s, cleanup := openBackend(a, o)
 	defer cleanup()
 	rv := newRef(a, o.Mode, o.Cfg)
+	s.Env.Answer, rv.Env.Answer = pick, pick
 	cacheComparable := true
 	for k, in := range inputs {
 		var beforeKey string
